@@ -177,7 +177,10 @@ def main(argv=None):
     args = ap.parse_args(argv)
     _setup_paths()
     pid = args.pid
-    seed = int(os.environ.get('VERIF_SEED', '0') or 0)
+    # The machinery is deterministic: nothing is sampled.  The solver's internal random seed
+    # is therefore fixed; VERIF_SEED is only honoured when SYMX_HONOR_SEED=1 (used to
+    # stress-test that verdicts do not depend on the solver's search order).
+    seed = int(os.environ.get('VERIF_SEED', '0') or 0) if os.environ.get('SYMX_HONOR_SEED') else 0
     t0 = time.time()
 
     if args.replay:
